@@ -203,6 +203,24 @@ Proof.
   cbn [ev_step]. unfold cache_get. rewrite (holds_find _ _ _ _ H2). reflexivity.
 Qed.
 
+(** Both cases together: with RequestIDs that are the request's own (not used
+    by any other event), processInitial reads exactly what HandleBefore of the
+    same request extracted, a ClientID or none. *)
+Theorem handover_exact cf evs1 evs2 rid cid :
+  fits cf cid ->
+  (forall e, In e evs1 -> ~ touches rid e) ->
+  (forall e, In e evs2 -> ~ touches rid e) ->
+  (length evs2 < cc_max_count cf)%nat ->
+  seen_after cf (evs1 ++ EvBefore rid cid :: evs2) rid = cid.
+Proof.
+  intros Hf H1 H2 Hn. destruct cid as [|b cid].
+  - apply no_inherit. intros c Hin. apply in_app_iff in Hin as [Hin|[Hin|Hin]].
+    + exfalso. apply (H1 _ Hin). reflexivity.
+    + inversion Hin. reflexivity.
+    + exfalso. apply (H2 _ Hin). reflexivity.
+  - apply survives; [discriminate|assumption|assumption|assumption].
+Qed.
+
 (** Every valid ClientID (a host-name label: 1 to 63 bytes) fits the
     server's cache configuration, which does not bound the element size. *)
 Lemma server_conf_fits v : fits server_cache_conf v.
